@@ -112,7 +112,10 @@ MALFORMED_EDITS = [
 ]
 MALFORMED_FIXED = [',', 'EST5EDT,', 'EST5EDT,M3.2.0', 'EST5EDT,M3', 'EST5EDT,M3.2', 'EST5EDT,M3.2.0,', 'EST5EDT,M3.2.0,M11', 'EST5EDT,J,J',
                    'EST5EDT,M3.2.0/2,M11.1.0/2,M1.1.1', 'EST5EDT,3,4,5', 'EST5EDT,Mx.y.z,M11.1.0', '5EST', '5', ':5', 'EST5EDT,M3.2.0/2;M11.1.0/2x',
-                   'EST5EDT,M3.2.0/2,M11.1.0/2 trailing', 'EST5EDT4,M3.2.0/,M11.1.0', 'EST+', 'EST5EDT,M3.2.0/2,M11.1.0/2,']
+                   'EST5EDT,M3.2.0/2,M11.1.0/2 trailing', 'EST5EDT4,M3.2.0/,M11.1.0', 'EST+', 'EST5EDT,M3.2.0/2,M11.1.0/2,',
+                   # the comma-separated numeric form with a field missing / in surplus
+                   'EST5EDT,4,1,0,7200,10,-1,0', 'EST5EDT,4,1,0,7200,10,-1', 'EST5EDT,4,1,0,7200,10', 'EST5EDT,4,1,0,7200,10,-1,0,7200,3600,5',
+                   'EST5EDT,4,1,0,7200,10,-1,0,7200,3600,', 'EST5EDT,J60,J300,J310', 'EST5EDT,60,300,7200', 'EST5EDT,M3.2.0.1,M11.1.0', 'EST5EDT,M3.2.0,M11.1']
 
 
 def check_malformed(ctx, tz, rng, valid):
